@@ -293,6 +293,10 @@ ares_status_t ares_init_by_options(ares_channel_t            *channel,
   }
 
   if (optmask & ARES_OPT_TIMEOUTMS) {
+    /* ARES_OPT_TIMEOUTMS decides how the value is interpreted if both bits are
+     * given.  The legacy bit is never kept in the channel's optmask (see
+     * ares_save_options()), otherwise it would describe a value nobody saved. */
+    optmask &= ~(ARES_OPT_TIMEOUT);
     /* Apparently some integrations were passing -1 to tell c-ares to use
      * the default instead of just omitting the optmask */
     if (options->timeout <= 0) {
